@@ -63,6 +63,9 @@ def build_frame(spec):
     if spec.get("extra", True):
         data["val"] = (np.arange(n) * 1.5 - 2.0)
         data["txt"] = np.array([f"t{i % 5}" for i in range(n)], dtype=object)
+    for name in spec.get("reserved_named_columns") or []:
+        # a user column that happens to carry the name of one of the library's helper columns
+        data[name] = np.arange(n, dtype=np.int64) * 7 + 1
     order = spec.get("col_order")
     if order:
         data = {k: data[k] for k in order}
